@@ -10,6 +10,8 @@ CONSTANTS
   Sequential = TRUE
   Planned = TRUE
   MaxPlan = 36
+  InitStores <- StoresEmpty
+  LogSched = FALSE
   KeepLog = FALSE
   OpMenu <- MenuHooks
   EditMenu <- EditsNone
